@@ -52,8 +52,8 @@ fn alphabet(tier: Tier) -> Vec<Op> {
         s("mutate-exported-list", "l.push 9\n", "l.push 9\n"),
         s(
             "define-functions",
-            "export f_ok = |x| x + 1\nexport f_throw = || throw 'ft'\nexport f_deep = || [1, 'a{(|| (2, f_throw()))()}']\nexport bad = {@display: (|| throw 'd'), @+: (|o| throw 'p'), @<: (|o| throw 'lt'), @size: (|| throw 'sz'), @index: (|i| throw 'ix'), @iterator: (|| throw 'it')}\nexport g_gen = ||\n  yield 1\n  throw 'in generator'\nexport f_disp = || 'x{bad}'\nexport f_sort = || [bad, bad].sort()\nexport f_unpack = ||\n  a, b = bad\n  a\nexport f_caught = ||\n  try\n    'x{bad}'\n  catch e\n    'caught'\n",
-            "export f_ok = |x| x + 1\nexport f_throw = || throw 'ft'\nexport f_deep = || [1, 'a{(|| (2, f_throw()))()}']\nexport bad = {@display: (|| throw 'd'), @+: (|o| throw 'p'), @<: (|o| throw 'lt'), @size: (|| throw 'sz'), @index: (|i| throw 'ix'), @iterator: (|| throw 'it')}\nexport g_gen = ||\n  yield 1\n  throw 'in generator'\nexport f_disp = || 'x{bad}'\nexport f_sort = || [bad, bad].sort()\nexport f_unpack = ||\n  a, b = bad\n  a\nexport f_caught = ||\n  try\n    'x{bad}'\n  catch e\n    'caught'\n",
+            "export f_ok = |x| x + 1\nexport f_throw = || throw 'ft'\nexport f_deep = || [1, 'a{(|| (2, f_throw()))()}']\nexport bad = {@display: (|| throw 'd'), @+: (|o| throw 'p'), @<: (|o| throw 'lt'), @==: (|o| throw 'eq'), @size: (|| throw 'sz'), @index: (|i| throw 'ix'), @iterator: (|| throw 'it')}\nexport g_gen = ||\n  yield 1\n  throw 'in generator'\nexport f_disp = || 'x{bad}'\nexport f_sort = || [bad, bad].sort()\nexport f_unpack = ||\n  a, b = bad\n  a\nexport f_caught = ||\n  try\n    'x{bad}'\n  catch e\n    'caught'\nexport f_ge = || bad >= 1\nexport f_ne = || bad != 1\nexport f_gt_caught = ||\n  try\n    bad > 1\n  catch e\n    'caught'\n",
+            "export f_ok = |x| x + 1\nexport f_throw = || throw 'ft'\nexport f_deep = || [1, 'a{(|| (2, f_throw()))()}']\nexport bad = {@display: (|| throw 'd'), @+: (|o| throw 'p'), @<: (|o| throw 'lt'), @==: (|o| throw 'eq'), @size: (|| throw 'sz'), @index: (|i| throw 'ix'), @iterator: (|| throw 'it')}\nexport g_gen = ||\n  yield 1\n  throw 'in generator'\nexport f_disp = || 'x{bad}'\nexport f_sort = || [bad, bad].sort()\nexport f_unpack = ||\n  a, b = bad\n  a\nexport f_caught = ||\n  try\n    'x{bad}'\n  catch e\n    'caught'\nexport f_ge = || bad >= 1\nexport f_ne = || bad != 1\nexport f_gt_caught = ||\n  try\n    bad > 1\n  catch e\n    'caught'\n",
         ),
         // failing runs: prefix (completed effects) then the failure
         s("throw-after-export", "export p = 1\nthrow 'x'\n", "export p = 1\n"),
@@ -81,12 +81,15 @@ fn alphabet(tier: Tier) -> Vec<Op> {
         s("error-in-meta-add", "o = {@+: |x| throw 'in add'}\nz = o + 1\n", ""),
         s("error-in-meta-display", "o = {@display: || throw 'in display'}\nz = 'a{o}'\n", ""),
         s("error-in-sort-compare", "o = {@<: |x| throw 'in lt'}\nz = [o, o].sort()\n", ""),
+        // a typed multi-assignment whose second target fails its check: only the first target is exported
+        s("export-typed-multi-fails", "export let ma, mb: String = 1, 2\n", "export ma = 1\n"),
         s("failed-let-hint", "let h: String = 42\n", ""),
         s("mutate-then-fail", "l.push 7\nz = l[99]\n", "l.push 7\n"),
         s("compile-error", "x = (\n", ""),
         s("indentation-error", "if true\nprint 1\n", ""),
         s("import-missing", "import no_such_module_anywhere\n", ""),
         Op::Script { name: "timeout", src: "export w = 5\nloop\n  x = [1, 'a{2}']\n", reference: "export w = 5\n", repl: false, timeout: true },
+        Op::Script { name: "import-spinning-module", src: "export before_sp = 1\nimport mod_spins\nexport after_sp = 1\n", reference: "export before_sp = 1\n", repl: false, timeout: true },
         // host-initiated calls
         Op::Call { name: "f_ok", function: "f_ok", args: 1 },
         Op::Call { name: "f_ok-wrong-arity", function: "f_ok", args: 0 },
@@ -98,6 +101,10 @@ fn alphabet(tier: Tier) -> Vec<Op> {
         Op::Call { name: "f_sort", function: "f_sort", args: 0 },
         Op::Call { name: "f_unpack", function: "f_unpack", args: 0 },
         Op::Call { name: "f_caught", function: "f_caught", args: 0 },
+        // comparisons derived from throwing @< / @==
+        Op::Call { name: "f_ge", function: "f_ge", args: 0 },
+        Op::Call { name: "f_ne", function: "f_ne", args: 0 },
+        Op::Call { name: "f_gt_caught", function: "f_gt_caught", args: 0 },
         Op::CallNativeBadArgs,
         Op::Display { name: "bad-display", value: "bad" },
         Op::Display { name: "plain", value: "l" },
@@ -126,6 +133,7 @@ fn alphabet(tier: Tier) -> Vec<Op> {
     }
     // REPL mode (export_top_level_ids)
     v.push(Op::Script { name: "repl-assign", src: "ra = 10\nrb = ra + 1\n", reference: "ra = 10\nrb = ra + 1\n", repl: true, timeout: false });
+    v.push(Op::Script { name: "repl-typed-multi-fails", src: "let rma, rmb: String = 1, 2\n", reference: "rma = 1\n", repl: true, timeout: false });
     v.push(Op::Script { name: "repl-assign-then-fail", src: "rc = 5\nrd = rc + 'x'\n", reference: "rc = 5\n", repl: true, timeout: false });
     if tier == Tier::Thorough {
         v.push(s("failing-test", "export @test broken = || assert false\n", "export @test broken = || assert false\n"));
@@ -140,9 +148,9 @@ fn cfg_for(repl: bool, timeout: bool) -> RunCfg {
     RunCfg {
         script_path: Some(format!("{}/main.koto", module_dir())),
         export_top_level: repl,
-        // the execution limit is a property of the instance: every instance has a 2 ms (virtual)
+        // the execution limit is a property of the instance: every instance has a 0.4 ms (virtual)
         // limit, which only the runaway script reaches
-        limit: Some(Duration::from_millis(2)),
+        limit: Some(Duration::from_micros(400)),
         quantum_ns: 100,
         budget_ticks: 400_000,
         ..RunCfg::default()
@@ -161,6 +169,7 @@ fn prepare_modules() {
         ("mod_ok.koto", "export x = 1\n"),
         ("mod_main_fails.koto", "export y = 2\nexport @main = || throw 'main failed'\n"),
         ("mod_top_fails.koto", "export z = 3\nthrow 'top failed'\n"),
+        ("mod_spins.koto", "export sp = 1\nloop\n  x = [1, 'a{2}']\n"),
         ("mod_main_not_callable.koto", "export y2 = 2\nexport @main = 42\n"),
         ("mod_test_fails.koto", "export y3 = 3\nexport @test broken = || assert false\n"),
         ("mod_cycle_a.koto", "import mod_cycle_b\nexport a = 1\n"),
@@ -310,6 +319,10 @@ fn probe(inst: &mut Instance) -> String {
     out.push_str(&format!(" | P6 {:?} {:?}", o.stdout, o.outcome.class()));
     let o = inst.run_with("try\n  print 'gi {gi.next()} {gi.next()}'\ncatch e\n  print 'gi failed or missing'\n", &cfg);
     out.push_str(&format!(" | P7 {:?} {:?}", o.stdout, o.outcome.class()));
+    // the module that never finishes importing times out again (it is not 'being imported' any more)
+    let short = RunCfg { limit: Some(Duration::from_micros(100)), budget_ticks: 40_000, ..cfg.clone() };
+    let o = inst.run_with("import mod_spins\nprint 'imported'\n", &short);
+    out.push_str(&format!(" | P8 {:?} {:?}", o.stdout, o.outcome.class()));
     if let Some(st) = &o.state {
         out.push_str(&format!(" | clean-after-probes {}", clean(st)));
     }
